@@ -70,7 +70,8 @@ def run_case(mod_name, case, tier, seed, validate_n):
     out = dict(case=case, paths=0, stats=None, violations=[], errors=[], validated=0, val_skipped=0,
                samples=[], notes=[], cut_what={}, classes={})
     qt = getattr(mod, 'QTIMEOUT_MS', {}).get(tier, 10000 if tier == 'quick' else 60000)
-    ctx = Ctx('sym', qtimeout_ms=qt, max_paths=getattr(mod, 'MAX_PATHS', {}).get(tier, 20000))
+    ctx = Ctx('sym', qtimeout_ms=qt, max_paths=getattr(mod, 'MAX_PATHS', {}).get(tier, 20000),
+              small_limit=getattr(mod, 'SMALL_LIMIT', 3000))
     ctx.max_seconds = getattr(mod, 'CASE_SECONDS', {}).get(tier, 240 if tier == 'quick' else 2400)
     fn = lambda: mod.harness(dict(case), tier)
     path_models = []
